@@ -86,10 +86,16 @@ type markHandler struct {
 
 func (h *markHandler) Handle(ctx context.Context, c *http.Client, req *http.Request) (*http.Response, error) {
 	req.Header.Add(hVia, h.mark)
-	resp, err := c.Do(req.WithContext(ctx))
 	sc := h.sc
 	if sc == nil {
 		sc = curScenario.Load()
+	}
+	if sc != nil {
+		sc.flight(1)
+	}
+	resp, err := c.Do(req.WithContext(ctx))
+	if sc != nil {
+		sc.flight(-1)
 	}
 	if err == nil && resp != nil && req.Method == http.MethodGet && sc != nil {
 		// the client is done with a stream when it closes the body: an event the harness can wait for
@@ -189,6 +195,7 @@ type scenario struct {
 	calls      []beforeCall
 	changed    chan struct{}
 	bodyCloses int // listening-stream bodies the client has closed
+	inflight   int // requests handed to the request handler that have not been answered yet
 
 	roots    *gateRoots
 	initDone bool      // a handshake has succeeded
@@ -545,6 +552,11 @@ func (sc *scenario) pushSlowRoots(nextID *int) (gt *rootsGate, id string, onRead
 // reopen opens a new listening stream with the operation's context (hook VerifReopenGetStream) and waits until the
 // server has it in service (a GET is only sent when the client has a session id).
 func (sc *scenario) reopen(ctx context.Context, w *opWindow) {
+	// Replacing the stream cancels the old stream's context, which the answers inherit: an answer POST that has
+	// reached the server but whose response the client has not read yet would be cancelled under the transport's
+	// feet (and, sharing the http.Transport, can take the new GET's connection attempt with it — seen as
+	// "context canceled" on the new GET). The server record alone does not say the client is done with the POST.
+	sc.waitIdle()
 	ups := sc.srv.upCount()
 	expectGet := sc.srv.isIssued()
 	if !mcp.VerifReopenGetStream(ctx, sc.cl) {
@@ -555,6 +567,33 @@ func (sc *scenario) reopen(ctx context.Context, w *opWindow) {
 	if expectGet {
 		if !sc.srv.waitUps(ups+1, ceiling) {
 			w.Err = errors.New("the reopened listening stream did not come up")
+		}
+	}
+}
+
+// flight counts the requests the client has handed to its request handler and not got an answer for yet.
+func (sc *scenario) flight(d int) {
+	sc.mu.Lock()
+	sc.inflight += d
+	close(sc.changed)
+	sc.changed = make(chan struct{})
+	sc.mu.Unlock()
+}
+
+// waitIdle waits (event based) until no request of the client is in flight.
+func (sc *scenario) waitIdle() bool {
+	deadline := time.After(ceiling)
+	for {
+		sc.mu.Lock()
+		ok, ch := sc.inflight <= 0, sc.changed
+		sc.mu.Unlock()
+		if ok {
+			return true
+		}
+		select {
+		case <-ch:
+		case <-deadline:
+			return false
 		}
 	}
 }
@@ -882,6 +921,12 @@ func replay(c *hk.Ctx, sid func() string) {
 				Kind    string `json:"kind"`
 				Variant string `json:"variant"`
 			} `json:"refused"`
+			Options *[]struct {
+				K    string  `json:"k"`
+				H    [][]any `json:"h"`
+				ID   int     `json:"id"`
+				Good bool    `json:"good"`
+			} `json:"options"`
 		} `json:"input"`
 	}
 	if err := json.Unmarshal(b, &rf); err != nil {
@@ -890,6 +935,30 @@ func replay(c *hk.Ctx, sid func() string) {
 	in := rf.Input
 	if in.Client == "" {
 		panic("replay file has no reqpaths input")
+	}
+	if in.Options != nil {
+		opts := []optSpec{}
+		for _, o := range *in.Options {
+			sp := optSpec{K: o.K, ID: o.ID, Good: o.Good}
+			for _, kv := range o.H {
+				if len(kv) != 2 {
+					continue
+				}
+				k, _ := kv[0].(string)
+				var vals []string
+				if l, ok := kv[1].([]any); ok {
+					for _, v := range l {
+						if sv, ok := v.(string); ok {
+							vals = append(vals, sv)
+						}
+					}
+				}
+				sp.H = append(sp.H, hdrKV{k, vals})
+			}
+			opts = append(opts, sp)
+		}
+		runOptions(c, in.Client, opts, sid())
+		return
 	}
 	if in.Refused != nil {
 		runBlocked(c, in.Client, in.Cfg, in.Refused.Kind, in.Refused.Variant, sid())
